@@ -640,7 +640,7 @@ class FuncGen:
             if "no-nonfinite-float-const" in self.avoid:
                 pool = pool[1:3]
             c = [const_instr(t, r.choice(pool))]
-            self.feat("cmp.special_operand")
+            self.feat("cmp_special_operand")
             if r.random() < 0.5:
                 a = c
             else:
@@ -660,7 +660,7 @@ class FuncGen:
             k = r.random()
             if k < 0.25:
                 code += self.op("i32.eqz")
-                self.feat("cmp.negated")
+                self.feat("cmp_negated")
                 if k < 0.05:
                     code += self.op("i32.eqz")
             return code
